@@ -64,7 +64,14 @@ func genTeardownWorld(t *rapid.T, prop string, opts SetGenOpts, inject bool) *Sc
 					if inject {
 						sc.Steps = append(sc.Steps, Step{Op: "inject", I: rapid.SampledFrom([]int{0, 0, 0, 1, 1, 2}).Draw(t, "n"), J: rapid.IntRange(0, len(InjectKinds)-1).Draw(t, "inj")})
 					} else {
-						sc.Steps = append(sc.Steps, Step{Op: "fault", I: rapid.IntRange(0, 14).Draw(t, "ncall"), J: rapid.IntRange(0, 3).Draw(t, "fkind")})
+						if rapid.IntRange(0, 3).Draw(t, "ondryrun") == 0 {
+							// the API server answers one of the pass's server-side dry runs with an error
+							sc.Steps = append(sc.Steps, Step{Op: "faultDryRun", I: rapid.IntRange(0, 5).Draw(t, "ndry"), J: rapid.IntRange(0, 4).Draw(t, "dkind")})
+							sc.Steps = append(sc.Steps, GenReconcile(t, ctrls))
+							continue
+						}
+						// plain failure, lost response, crash before/after, or an API status answer (500, 429, 503, timeout)
+						sc.Steps = append(sc.Steps, Step{Op: "fault", I: rapid.IntRange(0, 14).Draw(t, "ncall"), J: rapid.SampledFrom([]int{0, 1, 2, 3, 4, 4, 5, 6, 7}).Draw(t, "fkind")})
 					}
 				}
 				sc.Steps = append(sc.Steps, GenReconcile(t, ctrls))
